@@ -26,8 +26,9 @@ CHECKS = {
         "results, arbitrary completion order from symbolic completion times, Executor.map in submission order, as_completed in "
         "completion order; tqdm's process_map == list(ex.map)). max_workers is a symbolic integer 1..16 and every permutation of "
         "the <= 4 tasks of the pool run under study is an explored path; emg3d.solve is one uninterpreted function. z3 decides on "
-        "every path that synthetic data, every field, info slot, misfit, gradient, J v and a repeated compute equal the sequential "
-        "in-memory run, in memory and file-based, with and without tqdm; plus an absolute slot oracle (each source-frequency slot "
+        "every path that synthetic data, every field, info slot, misfit, gradient, J v, J^T w, a repeated compute and a compute after an "
+        "in-place model update equal the sequential in-memory run and that the solver is called with the same inputs (incl. the initial guess),"
+        " in memory and file-based, with and without tqdm; plus an absolute slot oracle (each source-frequency slot "
         "holds Solve of its own source/frequency/residual). Bit-identity of real floating-point solves across OS processes is "
         "outside the claim.",
    note=NOTE_COMMON+" The verdict is relative to the process-pool contract in symx/cfmodel.py (concurrent.futures documentation) and to the exact-solve idealisation; HDF5 back end is an in-memory store (C17 checks real files); worker-local module state is not modelled. Counterexamples are replayed with a real ProcessPoolExecutor, the completion order forced by task run times.",
